@@ -12,6 +12,8 @@ func dispatch(cmd string, args []string) int {
 		return cmdFaults(args)
 	case "C09":
 		return cmdLive(args)
+	case "C10":
+		return cmdImport(args)
 	default:
 		fmt.Println("unknown command", cmd)
 		return 2
